@@ -15,6 +15,7 @@ import (
 	"strings"
 	"unicode"
 	"unicode/utf8"
+	"unsafe"
 
 	"github.com/VKCOM/statshouse/internal/format"
 	"github.com/VKCOM/statshouse/internal/verifx"
@@ -221,6 +222,7 @@ func doNorm(r *verifx.Rng) bool {
 	h.Op("norm %s %s", verifx.Hex(dst), verifx.Hex(src))
 	h.Obs("st=%s fb=%s fs=%s v=%d%d", sts, verifx.Hex(fb), verifx.Hex([]byte(fs)), b2i(v), b2i(v2))
 	h.Stat("norm.kind."+kind, 1)
+	doInPlace(r, src, fb)
 	slow := !(len(src) == 0 || (v && isASCII(src)))
 	if slow {
 		h.Stat("norm.slowPath", 1)
@@ -263,6 +265,34 @@ func doNorm(r *verifx.Rng) bool {
 		h.Viol("strict-differs-from-force", "AppendValidStringValue(%x, %x) = %x, forced %x", dst, src, st, fb)
 	}
 	return slow || len(src) >= format.MaxStringLen-2 && len(src) <= format.MaxStringLen+2
+}
+
+// in-place call on a slice with a chosen capacity: the returned value, the caller's backing array afterwards and
+// whether the result still aliases it (ForceValidStringValueBytes passes dst = b[:0], src = b)
+func doInPlace(r *verifx.Rng, src []byte, want []byte) {
+	extra := []int{0, 0, 1, 2, 3, 8}[r.Intn(6)]
+	full := make([]byte, len(src)+extra)
+	for i := range full {
+		full[i] = 0xAA
+	}
+	copy(full, src)
+	b := full[:len(src):len(full)]
+	res := format.ForceValidStringValueBytes(b)
+	alias := unsafe.SliceData(res) == unsafe.SliceData(full)
+	h.Op("ip %d %s", len(full), verifx.Hex(src))
+	h.Obs("ip=%s mem=%s alias=%d", verifx.Hex(res), verifx.Hex(full), b2i(alias))
+	if len(res) > len(src) {
+		h.Stat("inplace.outputLongerThanInput", 1)
+	}
+	if !alias {
+		h.Stat("inplace.reallocated", 1)
+	}
+	if !bytes.Equal(res, want) {
+		h.Viol("inplace-differs", "ForceValidStringValueBytes on cap %d gives %x, on a roomy copy %x (input %x)", len(full), res, want, src)
+	}
+	if st, err := format.AppendValidStringValue(nil, src); err == nil && !bytes.Equal(res, st) {
+		h.Viol("inplace-differs-from-strict", "in place %x, AppendValidStringValue(nil, %x) = %x", res, src, st)
+	}
 }
 
 func isASCII(b []byte) bool {
